@@ -84,6 +84,16 @@ def check(repo, res, tier):
             continue
         res.ok('C14.G1', f, wp, 'plan graph = relabel_nodes(G, %s)' % m)
         check_node_loop(repo, canon, res, f, fr, node_loop, tasks_e.id, m, task_calls, ab, G, NODE)
+    # ---- no value leaks from one node's iteration into the next ------------
+    from .common import stale_reads
+    st = stale_reads(f, node_loop)
+    for name, node in st:
+        res.bad('C14.G2', f, node, 'stale `%s` in the node loop' % name,
+                'on some path through the node loop `%s` is read before it is assigned for this node (it is '
+                'assigned only conditionally inside the loop): the value of a previous node leaks into this '
+                'node\'s task' % name)
+    if not st:
+        res.ok('C14.G2', f, node_loop, 'every local read in the node loop is assigned for this node first')
     # ---- Task(...) arguments -------------------------------------------
     for tc in task_calls:
         check_task_args(repo, canon, res, f, fr, tc, node_loop, ab, G, NODE)
